@@ -462,8 +462,19 @@ class TermGen:
     def gen_abs(self, T, depth, env):
         A, B = T.args
         nm = self.names.bound_name(A)
+        scope = getattr(self, "_bscope", [])
+        if scope and self.rng.random() < 0.3:
+            # shadowing: an inner binder suggests the name of an enclosing binder (of any kind: lambda, quantifier,
+            # set comprehension ...); the printer must rename it when the body still mentions the outer variable
+            nm = self.rng.choice(scope)
+            self.count("abs:shadows-enclosing-binder")
         self.count("abs")
-        return Abs(nm, A, self.gen(B, depth - 1, [A] + env))
+        self._bscope = scope + [nm]
+        try:
+            body = self.gen(B, depth - 1, [A] + env)
+        finally:
+            self._bscope = scope
+        return Abs(nm, A, body)
 
     def gen_redex(self, T, depth, env):
         A = self.rand_type(1)
